@@ -178,3 +178,36 @@ Definition check_kw (c : kwcase) : bool :=
   | Ok TSNorm, KOk l' ok => Nat.eqb (List.length l') 12 && ok
   | _, _ => false
   end.
+
+(* ---- parse_one_cell_worker: universe, fillid, filltr, trcl of the CellMCNP -------------------- *)
+Inductive ck_out :=
+| CErr (e : Z)
+| COk (univ : Z) (fillid : option Z) (filltr : option (list Z)) (trcl : list (list Z))
+      (numeric_ok : bool).
+
+Record ckcase := mkCk {
+  q_table : list (Z * list Z);
+  q_u : option Z;
+  q_fill : option (bool * Z * Z * list Z);
+  q_trcl : option (bool * Z * list Z);
+  q_norms : list (list Z * list Z);       (* what normalize_transform returned, checked
+                                             numerically by the harness *)
+  q_out : ck_out
+}.
+
+Fixpoint norm_lookup (norms : list (list Z * list Z)) (params : list Z) : list Z :=
+  match norms with
+  | [] => []
+  | (ps, v) :: r => if list_eqb Z.eqb ps params then v else norm_lookup r params
+  end.
+
+Definition check_cell_kw (c : ckcase) : bool :=
+  match cell_of_keywords (list Z) (fun l => l) (fun _ ps => norm_lookup (q_norms c) ps)
+                         (q_table c) 0 0 (TSurf 1) 0 (q_u c) (q_fill c) (q_trcl c), q_out c with
+  | Err EKey, CErr 1 => true
+  | Ok cl, COk univ fillid filltr trcl ok =>
+      ok && (c_univ cl =? univ) && option_eqb Z.eqb (c_fill cl) fillid &&
+      option_eqb (list_eqb Z.eqb) (c_filltr cl) filltr &&
+      list_eqb (list_eqb Z.eqb) (c_trcl cl) trcl
+  | _, _ => false
+  end.
